@@ -390,8 +390,13 @@ def _livepatch__function(old_func, new_func, modname, cache, visit_stack):
     for oldcell, newcell in zip(old_closure, new_closure):
         oldcellv = oldcell.cell_contents
         newcellv = newcell.cell_contents
-        livepatch(oldcellv, newcellv,
-                  modname=modname, cache=cache, visit_stack=visit_stack)
+        updatedv = livepatch(
+            oldcellv, newcellv,
+            modname=modname, cache=cache, visit_stack=visit_stack)
+        if updatedv is not oldcellv:
+            # The object in the cell couldn't be livepatched in place, so
+            # the cell has to refer to the new object.
+            oldcell.cell_contents = updatedv
     return old_func
 
 
